@@ -78,8 +78,8 @@ func runC02(c *Cfg) {
 	maxSize := c.Pick(4<<10, 64<<10)
 	seeds := c02LoadSeeds(repo, maxSize)
 	c.Count(fmt.Sprintf("seeds/%d", len(seeds)/1000*1000))
-	nRaw := c.Pick(1500, 10000)
-	nProg := c.Pick(1500, 10000)
+	nRaw := c.Pick(1100, 10000)
+	nProg := c.Pick(1100, 10000)
 	if c.Focus {
 		nRaw, nProg = nRaw*2, nProg*2
 	}
@@ -172,7 +172,7 @@ func runC02(c *Cfg) {
 	}
 
 	// ---- the CLI entry point on a sample ---------------------------------------------
-	nCLI := c.Pick(130, 600)
+	nCLI := c.Pick(90, 600)
 	if len(cliSample) > nCLI {
 		cliSample = cliSample[:nCLI]
 	}
